@@ -1,5 +1,6 @@
 PROPERTY = 'C09'
 def thr(fn, n): return {fn: ['a', 'b', 'c'][:n], 'vp_thr_drain': ['']}
+def thrb(fn, n): return dict(thr(fn, n), vp_thr_post=[''])   # bounded units: + the sequential post-phase pusher
 IMM = [r'S_class_tbb__detail__d2__concurrent_queue\*\)v_\w+\)\)\.f1$']   # concurrent_queue::my_queue_representation: set by the constructor only
 UNITS = {
   # concurrent_queue<136-byte struct>: 1 item per page
@@ -55,6 +56,9 @@ BQ_TWO = [
 # try_push's CAS retry: X reads ticket/head, Y pops the only item and pushes a new one (taking X's ticket), X's CAS fails and it must re-evaluate
 # the fullness test with a fresh head: the queue never held 2 items, so try_push must succeed. REQ_RETRY_A: the witness run must contain a failed CAS of X.
 BQ_RETRY = [dict(bsc(2, 1, 0, (TRYPUSH, N), (POP, PUSH)), REQ_RETRY_A=1), dict(bsc(2, 1, 0, (TRYPUSH, N), (POP, TRYPUSH)), REQ_RETRY_A=1)]
+# negative-size state: a blocked pop() already took its ticket (head_counter > tail_counter) when ANOTHER thread calls try_pop: it must answer
+# "empty" at once (no ticket taken, no spinning), and the next push must go to the sleeper. PREBLOCK: thread a first runs until it sleeps.
+BQ_NEG = [dict(bsc(1, 0, 0, (BPOP, N), (POP, PUSH)), PREBLOCK=1), bsc(1, 0, 0, (BPOP, N), (POP, PUSH))]
 def _completable(scn):
     """abstract sanity check of a bounded-queue scenario (operations atomic): no reachable state in which an unfinished thread can never
     proceed. A scenario that fails it would make a legitimately sleeping caller look like a lost wake-up (two early scenarios did)."""
@@ -76,7 +80,7 @@ def _completable(scn):
             moved = True; npc = list(pcs); npc[t] += 1; stack.append((tuple(npc), nsz))
         if not moved and any(pcs[t] < len(thr[t]) for t in range(3)): return False
     return True
-for _s in BQ_ONE + BQ_TWO + BQ_RETRY: assert _completable(_s), 'bounded-queue scenario can block legitimately: %r' % _s
+for _s in BQ_ONE + BQ_TWO + BQ_RETRY + BQ_NEG: assert _completable(_s), 'bounded-queue scenario can block legitimately: %r' % _s
 DESC = ('2-3 threads x <=2 operations (push / try_pop) after a sequential pre-state; complete linearizability check of the invocation/response '
         'history against a FIFO queue, final drain, lane invariants, page accounting, cbmc memory safety (use after free of pages), lost hand-off (blocked-state oracle)')
 IMMB = [r'S_class_tbb__detail__d2__concurrent_bounded_queue\*\)v_\w+\)\)\.f[34]$']   # my_queue_representation, my_monitors
@@ -84,11 +88,11 @@ UNITS['cqx1_2'] = dict(wrapper='w_cq.cpp', mode='lcs', unroll=1, cxxflags=['-DEL
 # REALCPP=2: everything of concurrent_monitor.h real except binary_semaphore::P/V and the bounded spin of the monitor mutex
 MONCUT = ['16binary_semaphore1PEv', '16binary_semaphore1VEv', 'timed_spin_wait_until']
 UNITS['bqm1_2'] = dict(wrapper='w_cq.cpp', mode='lcs', unroll=1, cxxflags=['-DELEM=1', '-DBOUNDED=1', '-DREALCPP=2', '-D__TBB_BUILD=1'], cut=MONCUT, devirt=['sleep_node', 'delegated_function'], prune=True,
-                       lvalpath=True, immutable=IMMB, threads=thr('vp_thr_q', 2))
+                       lvalpath=True, immutable=IMMB, threads=thrb('vp_thr_q', 2))
 UNITS['bqmf1_2'] = dict(wrapper='w_cq.cpp', mode='lcs', unroll=1, cxxflags=['-DELEM=1', '-DBOUNDED=1', '-DREALCPP=2', '-DFAULTS=1', '-D__TBB_BUILD=1'], cut=MONCUT, devirt=['sleep_node', 'delegated_function'], prune=True,
-                        exceptions=True, allow_atomic=['__clang_call_terminate'], lvalpath=True, immutable=IMMB, threads=thr('vp_thr_q', 2))
+                        exceptions=True, allow_atomic=['__clang_call_terminate'], lvalpath=True, immutable=IMMB, threads=thrb('vp_thr_q', 2))
 UNITS['bqmx1_2'] = dict(wrapper='w_cq.cpp', mode='lcs', unroll=1, cxxflags=['-DELEM=1', '-DBOUNDED=1', '-DREALCPP=2', '-DABORTS=1', '-D__TBB_BUILD=1'], cut=MONCUT, devirt=['sleep_node', 'delegated_function'], prune=True,
-                        exceptions=True, allow_atomic=['__clang_call_terminate'], lvalpath=True, immutable=IMMB, threads=thr('vp_thr_q', 2))
+                        exceptions=True, allow_atomic=['__clang_call_terminate'], lvalpath=True, immutable=IMMB, threads=thrb('vp_thr_q', 2))
 HARNESSES = [
   dict(name='cq_big_2t', unit='cq1_2', harness='h_cq.c', defines={'NT': 2, 'ITEMS_PER_PAGE': 1},
        scenarios_quick=R(3, ONE_OP[:3]) + R(2, ONE_OP[3:5]), scenarios_thorough=R(4, ONE_OP[:3]) + R(3, ONE_OP[3:]) + R(3, TWO_OP[:4]) + R(2, TWO_OP[4:]),
@@ -133,7 +137,7 @@ HARNESSES = [
        desc='concurrent_queue<136-byte struct>, 3 threads x 1 operation: ' + DESC,
        bounds={'threads': 3, 'ops_per_thread': 1, 'free_rounds': 2, 'forced_rounds': 2, 'spin_unroll': 1}),
   dict(name='bq_big_2t', unit='bqm1_2', harness='h_cq.c', defines={'NT': 2, 'ITEMS_PER_PAGE': 1, 'BOUNDED': 1, 'REALCPP': 2},
-       scenarios_quick=R(1, BQ_ONE[:2]) + R(2, BQ_ONE[2:3] + BQ_ONE[4:]) + R(2, BQ_RETRY[1:]), scenarios_thorough=R(2, BQ_ONE[:2]) + R(3, BQ_ONE[2:]) + R(2, BQ_TWO) + R(3, BQ_RETRY),
+       scenarios_quick=R(1, BQ_ONE[:2]) + R(2, BQ_ONE[2:3] + BQ_ONE[4:]) + R(2, BQ_RETRY[1:]) + R(1, BQ_NEG[:1]), scenarios_thorough=R(2, BQ_ONE[:2]) + R(3, BQ_ONE[2:]) + R(2, BQ_TWO) + R(3, BQ_RETRY) + R(2, BQ_NEG),
        cbmc=CB, timeout=1500, mem_gb=8, thorough_override={'timeout': 5400}, native_cflags=NCF,
        desc='concurrent_bounded_queue<136-byte struct>, capacity 1-2 (header code real; the r1:: monitor entry points are contract stubs with sleeper bookkeeping): '
             'push/pop (blocking), try_push, try_pop; linearizability against a BOUNDED FIFO queue (a push takes effect only when size < capacity, try_push fails only when full), '
